@@ -83,12 +83,16 @@ def run(rep, tier):
         for ci in range(len(combos) if thorough else 2):
             m, e, f, d = combos[(si + ci) % len(combos)]
             th = [2, 3, 5, 16][(si + ci) % 4] if thorough else [3, 2, 5][(si + ci) % 3]
-            runs.append((sh, m, e, f, d, th, k % 3))
+            # the give strategy also runs with the geometry and / or the coefficients evaluated on the fly (separate code branches)
+            caches = [(1, 1), (0, 0), (1, 0), (0, 1)][k % 4] if m == 1 else (1, 1)
+            runs.append((sh, m, e, f, d, th, k % 3, caches))
             k += 1
+    if not thorough:      # one more give run, so that the quick tier sees every cache variant
+        runs += [(SHAPES[1], 1, 1, 1, 0, 3, 0, (0, 0)), (SHAPES[3], 1, 0, 0, 1, 2, 1, (1, 0)), (SHAPES[0], 1, 3, 0, 0, 5, 2, (0, 1))]
     nreg_total, small = 0, []
-    for (sh, m, e, f, d, th, cyc) in runs:
-        label = "%s_m%d_e%d_f%d_d%d_t%d" % (sh[0], m, e, f, d, th)
-        rec, err, summ = oc.record(oc.case_args(sh, m, e, f, d, th, cycle=cyc), label, th)
+    for (sh, m, e, f, d, th, cyc, caches) in runs:
+        label = "%s_m%d_e%d_f%d_d%d_t%d_c%d%d" % (sh[0], m, e, f, d, th, caches[0], caches[1])
+        rec, err, summ = oc.record(oc.case_args(sh, m, e, f, d, th, cycle=cyc, caches=caches), label, th)
         if err:
             rep.violation("record:crash", err + " case " + label, replay={"case": label})
             continue
